@@ -60,3 +60,22 @@ Theorem C11_skip_eq : forall f d ty s c s' u,
   ((3 <= uidx u)%nat -> exists k u', (forall fuel, u_skip (k + fuel) ty u = Ok (c, u')) /\ RU s' u').
 Proof. exact unchecked_skip_eq. Qed.
 Print Assumptions C11_skip_eq.
+
+(* enveloped messages: on EVERY input on which the checked binary reader reads a sequence of enveloped messages
+   (read_message_begin + value, several back to back on one protocol object), the unchecked reader returns the same
+   envelopes and values, never reads outside its window, and its cursor stands where the checked reader stopped; composed
+   with C01_message_sequence: what the checked binary writer produces is read back by the unchecked reader *)
+From PV Require Import Thrift.AppMsg Proofs.AppMsgP.
+Theorem C11_message_eq : forall tys f l rcx ms s',
+  read_msgs PBinary f tys (mkS l rcx) = Ok (ms, s') ->
+  exists u', uread_msgs f tys (mkU l 0) = Ok (ms, u') /\ urest u' = rbuf s' /\ (uidx u' <= length (ubuf u'))%nat.
+Proof. exact unchecked_message_eq. Qed.
+Print Assumptions C11_message_eq.
+
+Theorem C11_message_roundtrip : forall k msgs c, Forall msg_ok msgs -> w_pend c = None ->
+  exists ss, write_msgs PBinary k msgs c = Ok (ss, c) /\
+    forall fuel r, (forall q, In q msgs -> (vsize (snd q) <= fuel)%nat) ->
+      exists u', uread_msgs fuel (map (fun q => ttype_of (snd q)) msgs) (mkU (flat ss ++ r) 0)
+                   = Ok (map (fun q => (fst q, canon PBinary (snd q))) msgs, u') /\ urest u' = r.
+Proof. exact unchecked_message_roundtrip. Qed.
+Print Assumptions C11_message_roundtrip.
